@@ -1,4 +1,5 @@
 """C07 -- Krylov iterates are the optimal elements of the Krylov space."""
+import os
 import warnings
 
 import numpy as np
@@ -159,6 +160,18 @@ def run(ctx):
                 Aarg = sp.csr_array(A) if sparse_in else A
                 Marg = sp.csr_array(M) if (sparse_in and M is not None) else M
                 case = dict(case, storage='csr' if sparse_in else 'dense')
+                if M is not None and name in ('cg', 'cr', 'steepest_descent') and (si + len(name)) % 3 == 2:
+                    # the preconditioner as a LinearOperator that hands back ONE work array on every call (the result of an
+                    # earlier application is only good until the next one; cg copies what it keeps -- minimal_residual does not and is left out:
+                    # DESIGN 8.4, observation O5)
+                    from scipy.sparse.linalg import LinearOperator
+                    wbuf = np.zeros(n, dtype=np.result_type(M.dtype, b.dtype))
+
+                    def mv(v, M_=M, wbuf=wbuf):
+                        wbuf[:] = M_ @ np.ravel(v)
+                        return wbuf
+                    Marg = LinearOperator((n, n), matvec=mv, dtype=wbuf.dtype)
+                    case = dict(case, preconditioner='LinearOperator with a reused work vector')
                 for k in range(1, n + 1):
                     if name in ('gmres_mgs', 'gmres_householder', 'fgmres'):
                         with warnings.catch_warnings():
@@ -282,6 +295,39 @@ def run(ctx):
                         ctx.fail(name + '/restarted/not-optimal', 'after %d restart cycles of %d steps%s: norm %.10g, cycle-wise minimiser %.10g'
                                  % (cyc, m, ' (callback supplied)' if with_cb else '', val, best), dict(case, cycles=cyc, callback=with_cb))
                         break
+    # ---------- single precision (float32 / complex64 systems follow the double-precision iterates to single accuracy), and
+    # double-precision solves AFTER single-precision ones in the same process (no handle or work space may be shared)
+    rp = ctx.sub('precision')
+    for t in range(4 if not ctx.thorough else 20):
+        n = rp.choice([4, 6])
+        for cplx in (False, True):
+            Ah, bh = systems(rp, n, cplx, True)
+            Agn, bgn = systems(rp, n, cplx, False)
+            if np.linalg.cond(Ah) > 50 or np.linalg.cond(Agn) > 50:
+                continue
+            sdt = np.complex64 if cplx else np.float32
+            for name in ('cg', 'steepest_descent', 'minimal_residual', 'cr', 'cgnr', 'cgne', 'gmres_mgs', 'gmres_householder', 'fgmres', 'bicgstab'):
+                A_, b_ = (Ah, bh) if name in ('cg', 'steepest_descent', 'minimal_residual', 'cr') else (Agn, bgn)
+                x0 = np.array([rp.uniform(-1, 1) for _ in range(n)]).astype(b_.dtype)
+                fn = getattr(krylov, name)
+                case = dict(solver=name, n=n, complex=cplx, A=[[complex(v) for v in r] for r in A_], b=[complex(v) for v in b_], x0=[complex(v) for v in x0])
+                ctx.mark(case)
+                try:
+                    ref = iterates_of(fn, A_, b_, x0.copy(), 3)
+                    low = iterates_of(fn, A_.astype(sdt), b_.astype(sdt), x0.astype(sdt), 3)
+                    again = iterates_of(fn, A_, b_, x0.copy(), 3)
+                except Exception as e:   # noqa
+                    ctx.fail(name + '/precision/raises', repr(e), case)
+                    continue
+                ctx.case((name, 'precision', t, cplx), True)
+                ctx.count('oracle:%s-precision' % name)
+                m_ = min(len(ref), len(low))
+                if m_ and any(_nn(np.linalg.norm(l_ - r_)) > 2e-3 * np.linalg.cond(A_) * (1 + np.linalg.norm(r_)) for l_, r_ in zip(low[:m_], ref[:m_])):
+                    dev = max(_nn(np.linalg.norm(l_ - r_)) for l_, r_ in zip(low[:m_], ref[:m_]))
+                    ctx.fail(name + '/single-precision', '%s system: iterates deviate from the double-precision ones by %.3g' % (np.dtype(sdt).name, dev), dict(case, dtype=np.dtype(sdt).name))
+                if len(again) != len(ref) or any(_nn(np.linalg.norm(a_ - r_)) > 1e-12 * (1 + np.linalg.norm(r_)) for a_, r_ in zip(again, ref)):
+                    dev = max([_nn(np.linalg.norm(a_ - r_)) for a_, r_ in zip(again, ref)] + [0.0])
+                    ctx.fail(name + '/double-after-single', 'a double-precision solve repeated after a %s solve differs from the first one by %.3g' % (np.dtype(sdt).name, dev), case)
     # ---------- the same system in other units: every method is invariant under (A, b) -> (s A, s b); with s a power of two
     # the iterates are the same numbers (no absolute threshold or guard may enter the step lengths)
     rs_ = ctx.sub('scaled')
@@ -373,12 +419,62 @@ def run(ctx):
             ctx.count('model:' + name + '-dyadic')
     ctx.corr_relations = ['pyamg.krylov.{cg, steepest_descent, minimal_residual, cr, cgnr, cgne} iterates == KrylovRec loops over Q (2^-26 / 2^-22)',
                           'pyamg.krylov.cgnr iterates == KrylovRec.cg on the normal equations (1e-7)']
+    fresh_process_order(ctx)
     bad, errs = cq.run_cases('c07', HEADER, 'caseT', 'chk', cases, shard=40)
     for e in errs:
         ctx.disagree('C07 model evaluation', None, e, None)
     for i in bad[:20]:
         case, out = meta[i]
         ctx.disagree('krylov recurrence (%s)' % case['solver'], case, 'exact recurrence differs beyond tolerance', out)
+
+
+FRESH = r"""
+import sys, json, warnings
+import numpy as np
+warnings.simplefilter('ignore')
+from pyamg import krylov
+rs = np.random.RandomState(5)
+n = 8
+G = rs.rand(n, n) - 0.5
+Ah = G @ G.T + n * np.eye(n) * 0.25
+Ag = G + 2.0 * np.eye(n)
+b = rs.rand(n)
+out = {}
+first = sys.argv[1]
+for name in ('cg', 'cr', 'cgnr', 'cgne', 'gmres_mgs', 'gmres_householder', 'fgmres', 'bicgstab', 'steepest_descent', 'minimal_residual'):
+    fn = getattr(krylov, name)
+    A = Ah if name in ('cg', 'cr', 'steepest_descent', 'minimal_residual') else Ag
+    order = [np.float32, np.float64] if first == 'single' else [np.float64]
+    for dt in order:
+        x, info = fn(A.astype(dt), b.astype(dt), tol=1e-14, maxiter=(2 * n if name not in ('steepest_descent', 'minimal_residual') else 400))
+        if dt == np.float64:
+            out[name] = float(np.linalg.norm(b - A @ x) / np.linalg.norm(b))
+print(json.dumps(out))
+"""
+
+
+def fresh_process_order(ctx):
+    """in a FRESH interpreter: a double-precision solve that follows a single-precision solve of the same method reaches the
+    accuracy it reaches when it comes first (nothing chosen for the first call may stick to the process)"""
+    import json
+    import subprocess
+    from .. import core
+    res = {}
+    for first in ('double', 'single'):
+        env = dict(os.environ, PYTHONPATH=core.REPO, PYTHONHASHSEED='0', OMP_NUM_THREADS='1')
+        p_ = subprocess.run([core.PY, '-c', FRESH, first], capture_output=True, text=True, env=env, timeout=600)
+        try:
+            res[first] = json.loads(p_.stdout.strip().split('\n')[-1])
+        except Exception:   # noqa
+            ctx.fail('fresh-process/raises', 'the probe process failed: %s' % p_.stderr[-600:], dict(first=first))
+            return
+    for name, rd in res['double'].items():
+        rs_ = res['single'].get(name)
+        ctx.case(('fresh-process-order', name), True)
+        ctx.count('oracle:fresh-process-order')
+        if rs_ is None or not (rs_ <= max(100 * rd, 1e-11)):
+            ctx.fail(name + '/double-after-single/fresh-process', 'final relative residual of the double-precision solve: %.3g when it comes first, %r after a float32 solve of the same method'
+                     % (rd, rs_), dict(solver=name))
 
 
 def search(ctx):
